@@ -1,5 +1,6 @@
 import YaqsModel.Lemmas.Rank
 import YaqsModel.Model.Bonds
+import YaqsModel.Lemmas.SweepBonds
 
 /-!
 # C08 — the bond dimension never exceeds the user's cap
@@ -207,3 +208,516 @@ example : OpOk [3, 2] (.svd 0 [1, 1/2, 1/4, 0] (1/1000)) := by
   simp only [OpOk]; decide +kernel
 
 end Yaqs.Bonds
+
+/-!
+# C08 extension — the invariant over the ACTUAL operation sequences of the code
+
+`Model/SweepBonds.lean` translates the primitive updates of C05's sweep model (`Sweep.ldtdvpD`, `twoSite`, `singleSite`,
+`bug`) and the noise part of one analog step / one digital gate step into the bond-changing primitives of `Model/Bonds`
+(plus the left-moving QR shift and BUG's basis enlargement).  The theorems below prove the bound over these sequences
+— for every chain length, decision pattern, spectra assignment (`ext`), noise pattern, jump outcome and number of
+steps — with numerical hypotheses only where the code performs an SVD centre shift.
+-/
+namespace Yaqs.SweepBonds
+open Yaqs.Bonds Yaqs.Rank
+
+/-- split / QR ops of Model.Bonds -/
+def IsSplitQr : Bonds.Op → Prop
+  | .split _ _ => True
+  | .qr _ _ => True
+  | _ => False
+
+/-- one split or QR shift (either direction) preserves any per-bond ceiling that is at least `max(maxB, minB)` -/
+theorem c08_sweep_step (c : Cfg) (B : Nat → Nat) (hB : ∀ i, max c.maxB c.minB ≤ B i) (bs : List Nat) (o : XOp)
+    (ho : o.IsSweep) (hinv : ∀ i, bs.getD i 1 ≤ B i) : ∀ i, (applyX c bs o).getD i 1 ≤ B i := by
+  intro j
+  cases o with
+  | base b =>
+    cases b with
+    | split i s =>
+      simp only [applyX, Bonds.apply, Op.bond, newBond]
+      rw [getD_set]
+      split
+      · rename_i h; obtain ⟨rfl, _⟩ := h
+        exact le_trans (c08_split_le c s) (hB _)
+      · exact hinv j
+    | qr i d =>
+      simp only [applyX, Bonds.apply, Op.bond, newBond]
+      rw [getD_set]
+      split
+      · rename_i h; obtain ⟨rfl, _⟩ := h
+        exact le_trans (Nat.min_le_right _ _) (hinv _)
+      · exact hinv j
+    | svd i s t => exact absurd ho (by simp [XOp.IsSweep])
+    | trunc i s t m => exact absurd ho (by simp [XOp.IsSweep])
+  | qrl i d =>
+    simp only [applyX]
+    rw [getD_set]
+    split
+    · rename_i h; obtain ⟨rfl, _⟩ := h
+      exact le_trans (Nat.min_le_right _ _) (hinv _)
+    · exact hinv j
+  | grow i v => exact absurd ho (by simp [XOp.IsSweep])
+
+theorem c08_sweep_run (c : Cfg) (B : Nat → Nat) (hB : ∀ i, max c.maxB c.minB ≤ B i) (ops : List XOp)
+    (hops : ∀ o ∈ ops, o.IsSweep) :
+    ∀ bs : List Nat, (∀ i, bs.getD i 1 ≤ B i) → ∀ i, (runX c bs ops).getD i 1 ≤ B i := by
+  induction ops with
+  | nil => intro bs h; exact h
+  | cons o os ih =>
+    intro bs h
+    rw [runX_cons]
+    exact ih (fun x hx => hops x (by simp [hx])) _ (c08_sweep_step c B hB bs o (hops o (by simp)) h)
+
+/-- **C08.6 (no SVD shift ⇒ no floor 2)** for every sequence of splits and QR shifts of Model.Bonds — on any bonds, in
+    any order, with any spectra — every bond stays within `max(maxB, minB, initial bond)`.  The floor 2 of
+    `c08_bond_invariant` is due to the SVD centre shift alone. -/
+theorem c08_invariant_no_svd (c : Cfg) (init : List Nat) (ops : List Bonds.Op) (hops : ∀ o ∈ ops, IsSplitQr o) :
+    ∀ bs : List Nat, (∀ i, bs.getD i 1 ≤ bound0 c init i) →
+      ∀ i, (Bonds.run c bs ops).getD i 1 ≤ bound0 c init i := by
+  intro bs h i
+  rw [← runX_base]
+  refine c08_sweep_run c (bound0 c init) (fun i => Nat.le_max_left _ _) (ops.map XOp.base) ?_ bs h i
+  intro o ho
+  obtain ⟨b, hb, rfl⟩ := List.mem_map.mp ho
+  have := hops b hb
+  cases b <;> simp_all [IsSplitQr, XOp.IsSweep]
+
+/-- the same for the extended op set (QR shifts in both directions) -/
+theorem c08_invariant_no_svd_x (c : Cfg) (init : List Nat) (ops : List XOp) (hops : ∀ o ∈ ops, o.IsSweep) :
+    ∀ bs : List Nat, (∀ i, bs.getD i 1 ≤ bound0 c init i) → ∀ i, (runX c bs ops).getD i 1 ≤ bound0 c init i :=
+  c08_sweep_run c (bound0 c init) (fun _ => Nat.le_max_left _ _) ops hops
+
+/-- **C08.7 (the sweeps perform splits and QR shifts only)** for every chain length, decision pattern, mode and spectra
+    assignment, every bond-changing primitive of `local_dynamic_tdvp`, `single_site_tdvp` and `two_site_tdvp` is a
+    `split_mps_tensor` or a QR shift; hence the hypotheses `AllOkX` of the invariant hold for them in every state
+    without any numerical assumption. -/
+theorem c08_sweep_ops_ok (c : Cfg) (L : Nat) (phys : Nat → Nat) (dLR dRL : Nat → Bool) (digital : Bool)
+    (ext : Nat → Ext) (k : Nat) (bs : List Nat) :
+    ((∀ o ∈ fillFrom ext k (ldtdvpSk L phys dLR dRL digital), o.IsSweep) ∧
+      AllOkX c bs (fillFrom ext k (ldtdvpSk L phys dLR dRL digital))) ∧
+    ((∀ o ∈ fillFrom ext k (singleSiteSk L phys digital), o.IsSweep) ∧
+      AllOkX c bs (fillFrom ext k (singleSiteSk L phys digital))) ∧
+    (∀ ops, twoSiteSk L phys digital = some ops →
+      (∀ o ∈ fillFrom ext k ops, o.IsSweep) ∧ AllOkX c bs (fillFrom ext k ops)) ∧
+    ((∀ o ∈ ldtdvpAuto c L phys digital ext bs, o.IsSweep) ∧ AllOkX c bs (ldtdvpAuto c L phys digital ext bs)) := by
+  have h1 := isSweep_fillFrom ext _ k (isSweep_ldtdvpSk L phys dLR dRL digital)
+  have h2 := isSweep_fillFrom ext _ k (isSweep_singleSiteSk L phys digital)
+  have h4 : ∀ o ∈ ldtdvpAuto c L phys digital ext bs, o.IsSweep := by
+    rw [ldtdvpAuto_eq]; exact isSweep_fillFrom ext _ 0 (isSweep_ldtdvpSk L phys _ _ digital)
+  refine ⟨⟨h1, allOkX_of_isSweep c _ bs h1⟩, ⟨h2, allOkX_of_isSweep c _ bs h2⟩, ?_, ⟨h4, allOkX_of_isSweep c _ bs h4⟩⟩
+  intro ops hops
+  have h3 := isSweep_fillFrom ext _ k (isSweep_twoSiteSk L phys digital ops hops)
+  exact ⟨h3, allOkX_of_isSweep c _ bs h3⟩
+
+/-- **C08.8 (`local_dynamic_tdvp`)** for every chain length `L`, every decision pattern in both half sweeps, analog or
+    digital, every spectra assignment and every bond vector within the bound, after one call every bond is
+    `≤ max(maxB, minB, initial bond)` — no floor 2, no numerical hypothesis. -/
+theorem c08_ldtdvp_bounded (c : Cfg) (L : Nat) (phys : Nat → Nat) (dLR dRL : Nat → Bool) (digital : Bool)
+    (ext : Nat → Ext) (init bs : List Nat) (hinv : ∀ i, bs.getD i 1 ≤ bound0 c init i) :
+    ∀ i, (runX c bs (fillFrom ext 0 (ldtdvpSk L phys dLR dRL digital))).getD i 1 ≤ bound0 c init i :=
+  c08_invariant_no_svd_x c init _ (isSweep_fillFrom ext _ 0 (isSweep_ldtdvpSk L phys dLR dRL digital)) bs hinv
+
+/-- the same with the decisions read off the bond vector (`ldtdvpAuto`), stated from the state the call starts in -/
+theorem c08_ldtdvp_auto_bounded (c : Cfg) (L : Nat) (phys : Nat → Nat) (digital : Bool) (ext : Nat → Ext)
+    (bs : List Nat) (i : Nat) :
+    (runX c bs (ldtdvpAuto c L phys digital ext bs)).getD i 1 ≤ max (max c.maxB c.minB) (bs.getD i 1) := by
+  have h := (c08_sweep_ops_ok c L phys (fun _ => false) (fun _ => false) digital ext 0 bs).2.2.2.1
+  exact c08_invariant_no_svd_x c bs _ h bs (fun j => Nat.le_max_right _ _) i
+
+/-- **C08.8' (`two_site_tdvp`, `single_site_tdvp`)** the fixed-branch integrators: same bound -/
+theorem c08_fixed_sweeps_bounded (c : Cfg) (L : Nat) (phys : Nat → Nat) (digital : Bool) (ext : Nat → Ext)
+    (init bs : List Nat) (hinv : ∀ i, bs.getD i 1 ≤ bound0 c init i) :
+    (∀ i, (runX c bs (fillFrom ext 0 (singleSiteSk L phys digital))).getD i 1 ≤ bound0 c init i) ∧
+    (∀ ops, twoSiteSk L phys digital = some ops →
+      ∀ i, (runX c bs (fillFrom ext 0 ops)).getD i 1 ≤ bound0 c init i) := by
+  constructor
+  · exact c08_invariant_no_svd_x c init _ (isSweep_fillFrom ext _ 0 (isSweep_singleSiteSk L phys digital)) bs hinv
+  · intro ops hops
+    exact c08_invariant_no_svd_x c init _ (isSweep_fillFrom ext _ 0 (isSweep_twoSiteSk L phys digital ops hops)) bs hinv
+
+/-! #### BUG -/
+
+private theorem fill_truncs (ext : Nat → Ext) (t : Rat) (m : Nat) : ∀ (l : List Nat) (k : Nat),
+    ∃ ops : List Bonds.Op, fillFrom ext k (l.map fun i => XOp.base (.trunc i [] t m)) = ops.map XOp.base ∧
+      (∀ op ∈ ops, IsTrunc m op) ∧ ops.map Op.bond = l := by
+  intro l
+  induction l with
+  | nil => intro k; exact ⟨[], rfl, by simp, rfl⟩
+  | cons i is ih =>
+    intro k
+    obtain ⟨ops, h1, h2, h3⟩ := ih (k + 1)
+    refine ⟨.trunc i (ext k).s t m :: ops, ?_, ?_, ?_⟩
+    · simp only [List.map_cons, fillFrom, XOp.fill, h1]
+    · intro op hop
+      rcases List.mem_cons.mp hop with rfl | h
+      · rfl
+      · exact h2 op h
+    · simp [Op.bond, h3]
+
+private theorem truncSk_eq (c : Cfg) (L c0 : Nat) :
+    truncSk c L c0 = (List.range c0 ++ (List.range (L - 1 - c0)).map fun j => L - 2 - j).map
+      fun i => XOp.base (.trunc i [] c.thr c.maxB) := by
+  simp [truncSk, List.map_append, List.map_map, Function.comp_def]
+
+private theorem bugSk_eq (c : Cfg) (L c0 : Nat) :
+    ∃ grows : List XOp, bugSk c L c0 = grows ++ truncSk c L c0 := by
+  refine ⟨(Sweep.bugDown (L - 1)).flatMap (bugOpBond c L c0), ?_⟩
+  simp [bugSk, Sweep.bug, List.flatMap_append, bugOpBond]
+
+/-- **C08.9 (`bug`)** whatever the basis enlargements do, after the closing `MPS.truncate(threshold, max_bond_dim)` —
+    which visits every bond once, wherever the orthogonality centre `c0` is found — every bond of the chain is
+    `≤ max_bond_dim`: no numerical hypothesis, no dependence on the state before the call. -/
+theorem c08_bug_bounded (c : Cfg) (L c0 : Nat) (hc0 : c0 ≤ L - 1) (ext : Nat → Ext) (bs : List Nat)
+    (hlen : bs.length = L - 1) (j : Nat) (hj : j < L - 1) :
+    (runX c bs (fillFrom ext 0 (bugSk c L c0))).getD j 1 ≤ c.maxB := by
+  obtain ⟨grows, hg⟩ := bugSk_eq c L c0
+  rw [hg, fillFrom_append, runX_append, truncSk_eq]
+  obtain ⟨ops, h1, h2, h3⟩ := fill_truncs ext c.thr c.maxB
+    (List.range c0 ++ (List.range (L - 1 - c0)).map fun j => L - 2 - j) (0 + grows.length)
+  rw [h1, runX_base]
+  apply c08_bug_sweep c c.maxB ops h2
+  · rw [length_runX, hlen]; exact hj
+  · have hmem : j ∈ ops.map Op.bond := by
+      rw [h3, List.mem_append]
+      by_cases hjc : j < c0
+      · left; exact List.mem_range.mpr hjc
+      · right
+        refine List.mem_map.mpr ⟨L - 2 - j, List.mem_range.mpr (by omega), by omega⟩
+    obtain ⟨op, hop, hb⟩ := List.mem_map.mp hmem
+    exact ⟨op, hop, hb⟩
+
+/-! #### steps with noise: SVD centre shifts under their numerical hypotheses -/
+
+/-- one op of the extended set preserves the bound of `c08_bond_invariant` under its hypotheses -/
+theorem c08_step_x (c : Cfg) (init bs : List Nat) (o : XOp)
+    (hinv : ∀ i, bs.getD i 1 ≤ bound c init i) (hok : OpOkX bs o) :
+    ∀ i, (applyX c bs o).getD i 1 ≤ bound c init i := by
+  cases o with
+  | base b => exact c08_step c init bs b hinv hok
+  | qrl i d =>
+    exact c08_sweep_step c (bound c init) (fun i => by unfold bound; omega) bs (.qrl i d) trivial hinv
+  | grow i v => exact absurd hok (by simp [OpOkX])
+
+/-- the invariant of `c08_bond_invariant` for the extended op set -/
+theorem c08_bond_invariant_x (c : Cfg) (init : List Nat) (ops : List XOp) :
+    ∀ bs : List Nat, (∀ i, bs.getD i 1 ≤ bound c init i) → AllOkX c bs ops →
+      ∀ i, (runX c bs ops).getD i 1 ≤ bound c init i := by
+  induction ops with
+  | nil => intro bs h _; exact h
+  | cons o os ih =>
+    intro bs h hok
+    obtain ⟨h1, h2⟩ := hok
+    rw [runX_cons]
+    exact ih _ (c08_step_x c init bs o h h1) h2
+
+/-- the integrator part of an analog step keeps every bond within the bound: TDVP by `c08_sweep_run` (splits and QR
+    shifts only), BUG by `c08_bug_bounded` -/
+theorem c08_sweep_part_bounded (c : Cfg) (L : Nat) (phys : Nat → Nat) (ext : Nat → Ext) (init bs : List Nat)
+    (e : Evo) (hlen : bs.length = L - 1) (hwf : ∀ c0, e = .bug c0 → c0 ≤ L - 1)
+    (hinv : ∀ i, bs.getD i 1 ≤ bound c init i) :
+    ∀ i, (runX c bs (sweepOps c L phys ext bs e)).getD i 1 ≤ bound c init i := by
+  have hB : ∀ i, max c.maxB c.minB ≤ bound c init i := fun i => by unfold bound; omega
+  cases e with
+  | tdvp dLR dRL =>
+    exact c08_sweep_run c _ hB _ (isSweep_fillFrom ext _ 0 (isSweep_ldtdvpSk L phys dLR dRL false)) bs hinv
+  | auto =>
+    exact c08_sweep_run c _ hB _
+      (c08_sweep_ops_ok c L phys (fun _ => false) (fun _ => false) false ext 0 bs).2.2.2.1 bs hinv
+  | bug c0 =>
+    intro j
+    simp only [sweepOps]
+    by_cases hj : j < L - 1
+    · have := c08_bug_bounded c L c0 (hwf c0 rfl) ext bs hlen j hj
+      unfold bound; omega
+    · have hl := length_runX c (fillFrom ext 0 (bugSk c L c0)) bs
+      have : (runX c bs (fillFrom ext 0 (bugSk c L c0))).getD j 1 = 1 := by
+        rw [List.getD_eq_getElem?_getD, List.getElem?_eq_none (by omega)]; rfl
+      rw [this]; unfold bound; omega
+
+/-- **C08.10 (one analog time step, `step_through`)** integrator (TDVP with any decisions, or decisions read off the
+    bonds, or BUG) ; `apply_dissipation` (any pattern of two-site dissipators) ; jump lottery (no jump / jump with or
+    without a two-site split / scheduled jumps): if every bond is within `max(maxB, minB, max 2 init)` before, it is
+    after.  The only hypotheses (`AllOkX`, vacuous on splits and QR shifts) concern the SVD centre shifts of
+    `apply_dissipation` and of the jump normalisation, in the state they are applied to. -/
+theorem c08_analog_step_bounded (c : Cfg) (L : Nat) (phys : Nat → Nat) (e : Evo) (nz : Noise) (ext : Nat → Ext)
+    (init bs : List Nat) (hlen : bs.length = L - 1) (hwf : ∀ c0, e = .bug c0 → c0 ≤ L - 1)
+    (hinv : ∀ i, bs.getD i 1 ≤ bound c init i)
+    (hok : AllOkX c (runX c bs (sweepOps c L phys ext bs e))
+      (fillFrom ext (sweepOps c L phys ext bs e).length (noiseSk L phys nz))) :
+    ∀ i, (runX c bs (analogStep c L phys e nz ext bs)).getD i 1 ≤ bound c init i := by
+  unfold analogStep
+  simp only
+  rw [runX_append]
+  exact c08_bond_invariant_x c init _ _ (c08_sweep_part_bounded c L phys ext init bs e hlen hwf hinv) hok
+
+/-- without noise (`apply_dissipation` takes its QR branch, no jump) an analog TDVP step has no SVD shift at all:
+    the sharper bound `max(maxB, minB, init)` holds with no hypothesis -/
+theorem c08_analog_step_noiseless (c : Cfg) (L : Nat) (phys : Nat → Nat) (dLR dRL : Nat → Bool) (n2 : Nat → Nat)
+    (ext : Nat → Ext) (init bs : List Nat) (hinv : ∀ i, bs.getD i 1 ≤ bound0 c init i) :
+    ∀ i, (runX c bs (analogStep c L phys (.tdvp dLR dRL) ⟨false, n2, .none⟩ ext bs)).getD i 1 ≤ bound0 c init i := by
+  apply c08_invariant_no_svd_x c init _ _ bs hinv
+  intro o ho
+  simp only [analogStep, sweepOps] at ho
+  rcases List.mem_append.mp ho with h | h
+  · exact isSweep_fillFrom ext _ 0 (isSweep_ldtdvpSk L phys dLR dRL false) o h
+  · refine isSweep_fillFrom ext _ _ ?_ o h
+    intro x hx
+    simp only [noiseSk] at hx
+    rcases List.mem_append.mp hx with h' | h'
+    · exact isSweep_dissSk_quiet L phys n2 x h'
+    · exact isSweep_jumpSk_none L phys x h'
+
+/-- **C08.11 (one digital gate step)** `apply_window` (QR shifts) ; `two_site_tdvp` on the window ; noise block
+    (`normalize("B","QR")`, or `apply_dissipation` ; `stochastic_process` on the local noise model): the bound is
+    preserved; hypotheses only on the SVD shifts of the noise block, in the state after the gate. -/
+theorem c08_digital_step_bounded (c : Cfg) (L : Nat) (phys : Nat → Nat) (first last : Nat) (nz : Option Noise)
+    (ext : Nat → Ext) (init bs : List Nat) (hinv : ∀ i, bs.getD i 1 ≤ bound c init i)
+    (hok : AllOkX c (runX c bs (fillFrom ext 0 (gateSk L phys first last)))
+      (fillFrom ext (gateSk L phys first last).length
+        (match nz with | Option.none => qrLeftSk phys L | some nz => noiseSk L phys nz))) :
+    ∀ i, (runX c bs (gateStep L phys first last nz ext)).getD i 1 ≤ bound c init i := by
+  unfold gateStep
+  rw [fillFrom_append, runX_append, Nat.zero_add]
+  refine c08_bond_invariant_x c init _ _ ?_ hok
+  exact c08_sweep_run c _ (fun i => by unfold bound; omega) _
+    (isSweep_fillFrom ext _ 0 (isSweep_gateSk L phys first last)) bs hinv
+
+/-- a noise-free gate step (gate, then `normalize("B","QR")`): sharper bound, no hypothesis -/
+theorem c08_digital_step_noiseless (c : Cfg) (L : Nat) (phys : Nat → Nat) (first last : Nat) (ext : Nat → Ext)
+    (init bs : List Nat) (hinv : ∀ i, bs.getD i 1 ≤ bound0 c init i) :
+    ∀ i, (runX c bs (gateStep L phys first last Option.none ext)).getD i 1 ≤ bound0 c init i := by
+  apply c08_invariant_no_svd_x c init _ _ bs hinv
+  refine isSweep_fillFrom ext _ 0 ?_
+  intro o ho
+  rcases List.mem_append.mp ho with h | h
+  · exact isSweep_gateSk L phys first last o h
+  · exact isSweep_qrLeftSk phys L o h
+
+/-- well-formed step: the orthogonality centre found by BUG's truncation is a site of the chain -/
+def StepWf (L : Nat) : Step → Prop
+  | .analog (.bug c0) _ _ => c0 ≤ L - 1
+  | _ => True
+
+theorem c08_step_bounded (c : Cfg) (L : Nat) (phys : Nat → Nat) (init bs : List Nat) (s : Step)
+    (hlen : bs.length = L - 1) (hwf : StepWf L s) (hinv : ∀ i, bs.getD i 1 ≤ bound c init i)
+    (hok : StepOk c L phys bs s) :
+    ∀ i, (runX c bs (stepOps c L phys bs s)).getD i 1 ≤ bound c init i := by
+  cases s with
+  | analog e nz ext =>
+    refine c08_analog_step_bounded c L phys e nz ext init bs hlen ?_ hinv hok
+    intro c0 he; subst he; exact hwf
+  | gate f l nz ext =>
+    simp only [StepOk, gateStep, fillFrom_append, allOkX_append, Nat.zero_add] at hok
+    exact c08_digital_step_bounded c L phys f l nz ext init bs hinv hok.2
+
+/-- **C08.12 (whole runs)** any number of analog time steps and digital gate steps in any order, each with its own
+    integrator mode, decisions, spectra, noise pattern and jump outcome: every bond stays within
+    `max(maxB, minB, max 2 init)` after every step (induction over the steps; hypotheses only on the SVD shifts). -/
+theorem c08_run_bounded (c : Cfg) (L : Nat) (phys : Nat → Nat) (init : List Nat) (steps : List Step) :
+    ∀ bs : List Nat, bs.length = L - 1 → (∀ s ∈ steps, StepWf L s) → (∀ i, bs.getD i 1 ≤ bound c init i) →
+      AllStepsOk c L phys bs steps → ∀ i, (runSteps c L phys bs steps).getD i 1 ≤ bound c init i := by
+  induction steps with
+  | nil => intro bs _ _ h _; exact h
+  | cons s ss ih =>
+    intro bs hlen hwf hinv hok
+    obtain ⟨h1, h2⟩ := hok
+    simp only [runSteps]
+    refine ih _ ?_ (fun x hx => hwf x (by simp [hx])) ?_ h2
+    · rw [length_runX]; exact hlen
+    · exact c08_step_bounded c L phys init bs s hlen (hwf s (by simp)) hinv h1
+
+/-- **C08 over the actual runs (full statement)** when `max_bond_dim` or `min_bond_dim` is at least 2, after any run of
+    analog steps / gate steps started from `init`, no bond exceeds `max(max_bond_dim, min_bond_dim, initial bond)`. -/
+theorem c08_run_full (c : Cfg) (L : Nat) (phys : Nat → Nat) (init : List Nat) (steps : List Step)
+    (h2 : 2 ≤ max c.maxB c.minB) (hlen : init.length = L - 1) (hwf : ∀ s ∈ steps, StepWf L s)
+    (hok : AllStepsOk c L phys init steps) (i : Nat) :
+    (runSteps c L phys init steps).getD i 1 ≤ max (max c.maxB c.minB) (init.getD i 1) := by
+  have := c08_run_bounded c L phys init steps init hlen hwf (c08_init_ok c init) hok i
+  unfold bound at this
+  omega
+
+/-! #### the decision pattern is computed, not free -/
+
+private theorem splitKeep_pos (c : Cfg) (s : List Rat) (hs : s ≠ []) (hmin : 1 ≤ c.minB) (hmax : 1 ≤ c.maxB) :
+    1 ≤ splitKeep c s := by
+  have hl : 1 ≤ s.length := by
+    cases s with
+    | nil => exact absurd rfl hs
+    | cons a t => simp
+  unfold splitKeep
+  cases hm : c.mode with
+  | dw =>
+    simp only [keepDW]
+    split <;> omega
+  | rel =>
+    cases s with
+    | nil => exact absurd rfl hs
+    | cons a t =>
+      simp only [keepRel, Option.getD_some]
+      simp only [List.length_cons] at hl ⊢
+      omega
+
+/-- positivity of the bond dimensions is preserved by a split with a non-empty spectrum and by QR shifts -/
+private theorem pos_step (c : Cfg) (hmin : 1 ≤ c.minB) (hmax : 1 ≤ c.maxB) (ext : Nat → Ext)
+    (hs : ∀ k, (ext k).s ≠ []) (bs : List Nat) (o : XOp) (n : Nat) (ho : PosSk o)
+    (hpos : ∀ i, 1 ≤ bs.getD i 1) : ∀ i, 1 ≤ (applyX c bs (o.fill (ext n))).getD i 1 := by
+  intro j
+  cases o with
+  | base b =>
+    cases b with
+    | split i s =>
+      simp only [XOp.fill, applyX, Bonds.apply, Op.bond, newBond]
+      rw [getD_set]
+      split
+      · exact splitKeep_pos c _ (hs n) hmin hmax
+      · exact hpos j
+    | qr i d =>
+      simp only [XOp.fill, applyX, Bonds.apply, Op.bond, newBond]
+      rw [getD_set]
+      split
+      · have h1 : 1 ≤ leftBond bs i := by
+          unfold leftBond; split
+          · omega
+          · exact hpos _
+        have h2 := hpos i
+        have hd : 1 ≤ d := ho
+        have : 1 ≤ d * leftBond bs i := Nat.mul_pos hd h1
+        omega
+      · exact hpos j
+    | svd i s t => exact absurd ho (by simp [PosSk])
+    | trunc i s t m => exact absurd ho (by simp [PosSk])
+  | qrl i d =>
+    simp only [XOp.fill, applyX]
+    rw [getD_set]
+    split
+    · have h1 : 1 ≤ rightBond bs i := hpos _
+      have h2 := hpos i
+      have hd : 1 ≤ d := ho
+      have : 1 ≤ d * rightBond bs i := Nat.mul_pos hd h1
+      omega
+    · exact hpos j
+  | grow i v => exact absurd ho (by simp [PosSk])
+
+private theorem pos_run (c : Cfg) (hmin : 1 ≤ c.minB) (hmax : 1 ≤ c.maxB) (ext : Nat → Ext)
+    (hs : ∀ k, (ext k).s ≠ []) : ∀ (sk : List XOp) (k : Nat) (bs : List Nat), (∀ o ∈ sk, PosSk o) →
+      (∀ i, 1 ≤ bs.getD i 1) → ∀ i, 1 ≤ (runX c bs (fillFrom ext k sk)).getD i 1 := by
+  intro sk
+  induction sk with
+  | nil => intro k bs _ h; exact h
+  | cons o os ih =>
+    intro k bs hsk hpos
+    simp only [fillFrom, runX_cons]
+    exact ih (k + 1) _ (fun x hx => hsk x (by simp [hx])) (pos_step c hmin hmax ext hs bs o k (hsk o (by simp)) hpos)
+
+/-- **C08.13 (the decisions follow the cap)** `local_dynamic_tdvp` takes the two-site branch at a site iff the bond it
+    reads there (`tensors[i].shape[2]` going right, `tensors[i].shape[1]` going left, the dummy leg 1 at the chain
+    ends) is `< max_bond_dim`.  Reading the CURRENT bond vector at every visit (`ldtdvpAuto`) gives exactly the
+    translation of C05's `Sweep.ldtdvpD` for the decisions `capped (seenLR L bs ·)` / `capped (seenRL bs₁ ·)`, where
+    `bs₁` is the bond vector left by the left-to-right half; and these decision patterns are realizable in the sense
+    of C05 (`Sweep.Realizable`; the bonds seen are `≥ 1` and the dummy legs `= 1`, the hypotheses of
+    `Sweep.capped_realizable` / `ldtdvp_telescopes_dims`) — so C05's theorems apply to the decisions the code takes. -/
+theorem c08_decisions_follow_cap (c : Cfg) (L : Nat) (phys : Nat → Nat) (digital : Bool) (ext : Nat → Ext)
+    (bs : List Nat) (hmin : 1 ≤ c.minB) (hmax : 1 ≤ c.maxB) (hphys : ∀ i, 1 ≤ phys i)
+    (hs : ∀ k, (ext k).s ≠ []) (hpos : ∀ i, 1 ≤ bs.getD i 1) :
+    let dLR := fun i => Sweep.capped (seenLR L bs i) c.maxB
+    let bs1 := runX c bs (fillFrom ext 0 (bondOps .lr phys (Sweep.ldtdvpLR L dLR (1 / 2))))
+    let dRL := fun i => Sweep.capped (seenRL bs1 i) c.maxB
+    ldtdvpAuto c L phys digital ext bs = fillFrom ext 0 (ldtdvpSk L phys dLR dRL digital) ∧
+    Sweep.Realizable L dLR (L - 1) ∧ Sweep.Realizable L dRL 0 ∧
+    (∀ i, i < L → 1 ≤ seenLR L bs i) ∧ seenLR L bs (L - 1) = 1 ∧
+    (∀ i, i < L → 1 ≤ seenRL bs1 i) ∧ seenRL bs1 0 = 1 := by
+  intro dLR bs1 dRL
+  have p1 : ∀ i, 1 ≤ seenLR L bs i := by
+    intro i; unfold seenLR; split
+    · exact hpos i
+    · exact Nat.le_refl 1
+  have d1 : seenLR L bs (L - 1) = 1 := by
+    unfold seenLR
+    have : ¬ (L - 1 + 1 < L) := by omega
+    simp [this]
+  have hpos1 : ∀ i, 1 ≤ bs1.getD i 1 :=
+    pos_run c hmin hmax ext hs _ 0 bs (posSk_bondOps .lr phys hphys _) hpos
+  have p2 : ∀ i, 1 ≤ seenRL bs1 i := by
+    intro i; unfold seenRL; split
+    · exact Nat.le_refl 1
+    · exact hpos1 _
+  have d2 : seenRL bs1 0 = 1 := by simp [seenRL]
+  refine ⟨ldtdvpAuto_eq c L phys digital ext bs, ?_, ?_, fun i _ => p1 i, d1, fun i _ => p2 i, d2⟩
+  · intro hd i _
+    simp only [dLR, Sweep.capped, decide_eq_true_eq, d1] at hd ⊢
+    have := p1 i
+    omega
+  · intro hd i _
+    simp only [dRL, Sweep.capped, decide_eq_true_eq, d2] at hd ⊢
+    have := p2 i
+    omega
+
+/-! #### non-vacuity -/
+
+/-- spectra used in the examples: position ↦ external data -/
+private def exExt : Nat → Ext := fun k =>
+  if k % 2 = 0 then ⟨[1, 1/2, 1/4, 1/8], 1/1000, 5⟩ else ⟨[1, 1/2, 1/4, 0], 1/1000, 7⟩
+
+private def exCfg : Cfg := { mode := .dw, thr := 0, minB := 2, maxB := 3 }
+
+/-- L = 4, cap 3, bonds [2,3,2]: the decisions are computed (two-site at bond 0, one-site at the capped bond 1,
+    two-site at the last pair), the splits want 4 and get the cap 3, QR shifts in both directions occur -/
+example :
+    ldtdvpAuto exCfg 4 (fun _ => 2) false exExt [2, 3, 2] =
+      [.base (.split 0 [1, 1/2, 1/4, 1/8]), .base (.qr 1 2), .base (.split 2 [1, 1/2, 1/4, 1/8]),
+       .qrl 2 2, .qrl 1 2, .qrl 0 2] ∧
+    runX exCfg [2, 3, 2] (ldtdvpAuto exCfg 4 (fun _ => 2) false exExt [2, 3, 2]) = [3, 3, 2] := by
+  decide +kernel
+
+/-- the same call with a given (mixed) decision pattern: hypotheses of `c08_ldtdvp_bounded` are met -/
+example :
+    runX exCfg [2, 2, 2] (fillFrom exExt 0 (ldtdvpSk 4 (fun _ => 2) (fun i => decide (i = 1)) (fun _ => false) false))
+      = [3, 3, 3] ∧ (∀ i, i < 3 → ([2, 2, 2] : List Nat).getD i 1 ≤ bound0 exCfg [2, 2, 2] i) := by
+  decide +kernel
+
+/-- a BUG step: enlargements to 5 and 7, then the truncation brings every bond to the cap 3 (centre 0) -/
+example : runX exCfg [2, 2, 2] (fillFrom exExt 0 (bugSk exCfg 4 0)) = [3, 3, 3] ∧
+    (fillFrom exExt 0 (bugSk exCfg 4 0)).length = 6 := by
+  decide +kernel
+
+/-- full-rank spectra for the splits (positions 0, 1, 4, 9 of the step below), rank-3 spectra for the SVD shifts -/
+private def exExt2 : Nat → Ext := fun k =>
+  if k = 0 ∨ k = 1 ∨ k = 4 ∨ k = 9 then ⟨[1, 1/2, 1/4, 1/8], 1/1000, 0⟩ else ⟨[1, 1/2, 1/4, 0], 1/1000, 0⟩
+
+/-- an analog step with noise (one two-site dissipator on (1,2)) and a jump with a split on (0,1), L = 3: the sweep
+    (2 splits, 2 left QR shifts), then split + 2 SVD shifts, QR sweep to the right, split, SVD normalisation; the
+    hypotheses `AllOkX` of `c08_analog_step_bounded` hold for the SVD shifts -/
+example :
+    let nz : Noise := ⟨true, fun i => if i = 2 then 1 else 0, .stoch (some 0)⟩
+    let ops := analogStep exCfg 3 (fun _ => 2) .auto nz exExt2 [2, 2]
+    ops.length = 12 ∧ runX exCfg [2, 2] ops = [3, 3] ∧
+      AllOkX exCfg (runX exCfg [2, 2] (sweepOps exCfg 3 (fun _ => 2) exExt2 [2, 2] .auto))
+        (fillFrom exExt2 (sweepOps exCfg 3 (fun _ => 2) exExt2 [2, 2] .auto).length (noiseSk 3 (fun _ => 2) nz)) := by
+  intro nz ops
+  refine ⟨by decide +kernel, by decide +kernel, ?_⟩
+  have hops : fillFrom exExt2 (sweepOps exCfg 3 (fun _ => 2) exExt2 [2, 2] .auto).length (noiseSk 3 (fun _ => 2) nz) =
+      [.base (.split 1 [1, 1/2, 1/4, 1/8]), .base (.svd 1 [1, 1/2, 1/4, 0] (1/1000)),
+       .base (.svd 0 [1, 1/2, 1/4, 0] (1/1000)), .base (.qr 0 2), .base (.qr 1 2),
+       .base (.split 0 [1, 1/2, 1/4, 1/8]), .base (.svd 1 [1, 1/2, 1/4, 0] (1/1000)),
+       .base (.svd 0 [1, 1/2, 1/4, 0] (1/1000))] := by decide +kernel
+  have hbs : runX exCfg [2, 2] (sweepOps exCfg 3 (fun _ => 2) exExt2 [2, 2] .auto) = [3, 2] := by decide +kernel
+  rw [hops, hbs]
+  simp only [AllOkX, OpOkX, OpOk, applyX, Bonds.apply, Op.bond, newBond]
+  decide +kernel
+
+/-- a digital gate on sites (2,3) of a chain of 5: window [1,4], one QR shift before it, three splits, then the
+    QR normalisation -/
+example :
+    gateStep 5 (fun _ => 2) 2 3 Option.none exExt =
+      [.base (.qr 0 2), .base (.split 1 [1, 1/2, 1/4, 0]), .base (.split 2 [1, 1/2, 1/4, 1/8]),
+       .base (.split 3 [1, 1/2, 1/4, 0]), .qrl 3 2, .qrl 2 2, .qrl 1 2, .qrl 0 2] := by
+  decide +kernel
+
+/-- a run of two steps (analog, then a gate) is covered by `c08_run_bounded`: well-formed and within the bound -/
+example :
+    runSteps exCfg 4 (fun _ => 2) [1, 2, 1]
+      [.analog (.bug 0) ⟨false, fun _ => 0, .none⟩ exExt, .gate 1 2 Option.none exExt] = [3, 3, 2] := by
+  decide +kernel
+
+end Yaqs.SweepBonds
